@@ -188,6 +188,61 @@ theorem none_default (t0 t1 : Int) :
     drange t0 t1 .none = drange t0 t1 (.int (if t0 < t1 then 1 else -1)) := by
   simp [drange]
 
+/-- integer bumps as one statement: `n > 0`, endpoints a whole number of days apart: the list is exactly
+`t0, t0 + n days, t0 + 2n days, …` while `≤ t1` -/
+theorem int_forward (t0 t1 n : Int) (hn : 0 < n) (h : t0 < t1) (hal : (t1 - t0) % DAY = 0) :
+    ∃ l, drange t0 t1 (.int n) = .ok l ∧ IsRangeUp (· + DAY * n) t0 t1 l ∧ l.head? = some t0 ∧
+      l.Pairwise (· < ·) ∧ (∀ x ∈ l, t0 ≤ x ∧ x ≤ t1) ∧ ∀ i, i < l.length → l[i]? = some (t0 + DAY * n * i) := by
+  obtain ⟨l, h1, h2, h3, h4, h5⟩ := loop_forward (· + DAY * n) (fun t => by unfold DAY; omega) t0 t1 h
+  refine ⟨l, by rw [int_eq_iterate t0 t1 n (by omega) (by omega) hal]; exact h1, h2, h3, h4, h5, fun i hi => ?_⟩
+  rw [(h2.1 i hi).1, iter_add]
+
+theorem int_backward (t0 t1 n : Int) (hn : n < 0) (h : t1 < t0) (hal : (t1 - t0) % DAY = 0) :
+    ∃ l, drange t0 t1 (.int n) = .ok l ∧ IsRangeDown (· + DAY * n) t0 t1 l ∧ l.head? = some t0 ∧
+      l.Pairwise (· > ·) ∧ (∀ x ∈ l, t1 ≤ x ∧ x ≤ t0) ∧ ∀ i, i < l.length → l[i]? = some (t0 + DAY * n * i) := by
+  obtain ⟨l, h1, h2, h3, h4, h5⟩ := loop_backward (· + DAY * n) (fun t => by unfold DAY; omega) t0 t1 h
+  refine ⟨l, by rw [int_eq_iterate t0 t1 n (by omega) (by omega) hal]; exact h1, h2, h3, h4, h5, fun i hi => ?_⟩
+  rw [(h2.1 i hi).1, iter_add]
+
+/-- no bump given, as a specification: one day per step from `t0` towards `t1`, whichever side `t1` is on -/
+theorem none_is_daily (t0 t1 : Int) (hne : t0 ≠ t1) (hal : (t1 - t0) % DAY = 0) :
+    ∃ l, drange t0 t1 .none = .ok l ∧ l.head? = some t0 ∧
+      (∀ i, i < l.length → l[i]? = some (if t0 < t1 then t0 + DAY * i else t0 - DAY * i)) ∧
+      (∀ x ∈ l, min t0 t1 ≤ x ∧ x ≤ max t0 t1) ∧ (l.length : Int) = (max t0 t1 - min t0 t1) / DAY + 1 := by
+  rw [none_default]
+  by_cases hlt : t0 < t1
+  · simp only [hlt, if_true]
+    obtain ⟨l, h1, h2, h3, _, h5, h6⟩ := int_forward t0 t1 1 (by omega) hlt hal
+    refine ⟨l, h1, h3, fun i hi => by rw [h6 i hi, Int.mul_one], fun x hx => by have := h5 x hx; omega, ?_⟩
+    have hlen := h2.2
+    rw [iter_add] at hlen
+    have hpos : 0 < l.length := by
+      cases l with
+      | nil => simp at h3
+      | cons _ _ => simp
+    have hlast := (h2.1 (l.length - 1) (by omega)).2
+    rw [iter_add] at hlast
+    have e : ((l.length - 1 : Nat) : Int) = (l.length : Int) - 1 := by omega
+    rw [e] at hlast
+    rw [show max t0 t1 = t1 by omega, show min t0 t1 = t0 by omega]
+    unfold DAY at *; omega
+  · have hgt : t1 < t0 := by omega
+    simp only [hlt, if_false]
+    obtain ⟨l, h1, h2, h3, _, h5, h6⟩ := int_backward t0 t1 (-1) (by omega) hgt hal
+    refine ⟨l, h1, h3, fun i hi => by rw [h6 i hi]; exact congrArg some (by unfold DAY; omega), fun x hx => by have := h5 x hx; omega, ?_⟩
+    have hlen := h2.2
+    rw [iter_add] at hlen
+    have hpos : 0 < l.length := by
+      cases l with
+      | nil => simp at h3
+      | cons _ _ => simp
+    have hlast := (h2.1 (l.length - 1) (by omega)).2
+    rw [iter_add] at hlast
+    have e : ((l.length - 1 : Nat) : Int) = (l.length : Int) - 1 := by omega
+    rw [e] at hlast
+    rw [show max t0 t1 = t0 by omega, show min t0 t1 = t1 by omega]
+    unfold DAY at *; omega
+
 /-! ### period strings -/
 
 /-- compound period strings (two or more parts) are iterated with `dt_bump`; stated for any bump that moves
@@ -642,6 +697,58 @@ theorem stride_getElem? {α} (k : Nat) (hk : 1 ≤ k) (l : List α) (i : Nat) : 
         rw [this, List.getElem?_cons_succ]
   have := go l 0 i
   simpa [stride] using this
+
+/-- `'kb'` against the specification of `'1b'`: with `l1` = every weekday of the daily grid from `t0` up to `t1` in
+increasing order (the `'1b'` list, characterised by its members), the `'kb'` list is `l1[0], l1[k], l1[2k], …` -/
+theorem kb_every_kth (k : Int) (hk : 1 ≤ k) (t0 t1 : Int) (h : t0 < t1) :
+    ∃ l1 lk, drange t0 t1 (.period [(1, .b)]) = .ok l1 ∧ drange t0 t1 (.period [(k, .b)]) = .ok lk ∧
+      l1.Pairwise (· < ·) ∧ (∀ x, x ∈ l1 ↔ t0 ≤ x ∧ x ≤ t1 ∧ (x - t0) % DAY = 0 ∧ wdT x < 5) ∧
+      ∀ i, lk[i]? = l1[k.natAbs * i]? := by
+  obtain ⟨l1, e1, hp, hm⟩ := b_is_weekday_list t0 t1 h
+  have e1' := kb_stride 1 (by omega) t0 t1 h
+  have ek := kb_stride k hk t0 t1 h
+  simp only [show ¬ (1 : Int).natAbs > 1 by decide, if_false] at e1'
+  rw [e1] at e1'
+  cases e1'
+  refine ⟨_, _, e1, ek, hp, hm, fun i => ?_⟩
+  by_cases hgt : k.natAbs > 1
+  · simp only [hgt, if_true]; exact stride_getElem? k.natAbs (by omega) _ i
+  · simp only [hgt, if_false]
+    have : k.natAbs = 1 := by omega
+    rw [this, Nat.one_mul]
+
+/-- `'-1b'` as a specification: exactly the weekdays of the daily grid (anchored at the lower endpoint `t1`, i.e. at
+`t0` as well when the endpoints are whole days apart) between the endpoints, in DEcreasing order -/
+theorem b_backward_list (t0 t1 : Int) (h : t1 < t0) :
+    ∃ l, drange t0 t1 (.period [(-1, .b)]) = .ok l ∧ l.Pairwise (· > ·) ∧
+      ∀ x, x ∈ l ↔ t1 ≤ x ∧ x ≤ t0 ∧ (x - t1) % DAY = 0 ∧ wdT x < 5 := by
+  have hinc1 : ∀ t : Int, t < t + DAY := by intro t; unfold DAY; omega
+  have e := kb_stride_backward (-1) (by omega) t0 t1 h
+  simp only [show ¬ (-1 : Int).natAbs > 1 by decide, if_false] at e
+  refine ⟨_, e, ?_, fun x => ?_⟩
+  · rw [List.pairwise_reverse]
+    exact (upTo_pairwise _ hinc1 t0 t1).filter _
+  · rw [List.mem_reverse, List.mem_filter, mem_daily]
+    simp only [decide_eq_true_eq]
+    omega
+
+/-- `'-kb'`: every k-th element of the `'-1b'` list -/
+theorem kb_every_kth_backward (k : Int) (hk : k ≤ -1) (t0 t1 : Int) (h : t1 < t0) :
+    ∃ l1 lk, drange t0 t1 (.period [(-1, .b)]) = .ok l1 ∧ drange t0 t1 (.period [(k, .b)]) = .ok lk ∧
+      l1.Pairwise (· > ·) ∧ (∀ x, x ∈ l1 ↔ t1 ≤ x ∧ x ≤ t0 ∧ (x - t1) % DAY = 0 ∧ wdT x < 5) ∧
+      ∀ i, lk[i]? = l1[k.natAbs * i]? := by
+  obtain ⟨l1, e1, hp, hm⟩ := b_backward_list t0 t1 h
+  have e1' := kb_stride_backward (-1) (by omega) t0 t1 h
+  have ek := kb_stride_backward k hk t0 t1 h
+  simp only [show ¬ (-1 : Int).natAbs > 1 by decide, if_false] at e1'
+  rw [e1] at e1'
+  cases e1'
+  refine ⟨_, _, e1, ek, hp, hm, fun i => ?_⟩
+  by_cases hgt : k.natAbs > 1
+  · simp only [hgt, if_true]; exact stride_getElem? k.natAbs (by omega) _ i
+  · simp only [hgt, if_false]
+    have : k.natAbs = 1 := by omega
+    rw [this, Nat.one_mul]
 
 /-- a business-day bump pointing away from `t1` raises `ValueError` -/
 theorem b_away (k : Int) (t0 t1 : Int) (hal : (t1 - t0) % DAY = 0)
